@@ -8,24 +8,8 @@
 \*            warning) placed after layout prefixes: concrete ones (blank lines, CR LF, tabs, comments, multi-byte characters) and scaled
 \*            ones (n spaces, a comment line of n bytes, n newlines, for n across 240/241, 2287/2288, 4096, 67823/67824) with the
 \*            expected line, column and quoted text in closed form.
-EXTENDS Integers, Sequences, FiniteSets, TLC, Json
+EXTENDS BclLineCol, TLC, Json
 CONSTANTS Scope, MaxLen
-
-\* ---- L1
-NewlineOffsets(bs) == LET RECURSIVE Go(_, _)
-                          Go(i, acc) == IF i > Len(bs) THEN acc ELSE Go(i + 1, IF bs[i] = 10 THEN Append(acc, i - 1) ELSE acc)
-                      IN Go(1, <<>>)
-LineCol(bs, p) ==
-  LET nl == { i \in 1..Len(bs) : bs[i] = 10 /\ i - 1 < p } IN
-  IF nl = {} THEN <<1, p + 1>>
-  ELSE LET last == CHOOSE i \in nl : \A j \in nl : j <= i IN <<Cardinality(nl) + 1, p - (last - 1)>>
-\* ---- L2: sort.SearchInts(lfs, pos) = smallest j (0-based) with lfs[j] >= pos, or len
-RECURSIVE Search(_, _, _)
-Search(lfs, pos, j) == IF j >= Len(lfs) \/ lfs[j + 1] >= pos THEN j ELSE Search(lfs, pos, j + 1)
-LineColOf(lfs, pos) ==
-  LET j == Search(lfs, pos, 0) IN
-  IF j = Len(lfs) THEN (IF j = 0 THEN <<1, pos + 1>> ELSE <<j + 1, pos - lfs[j]>>)
-  ELSE <<j + 1, pos - (IF j > 0 THEN lfs[j] ELSE -1)>>
 
 VARIABLES bs, phase, shape, pre
 vars == <<bs, phase, shape, pre>>
